@@ -18,6 +18,7 @@ fn is_callback(op: Op) -> bool {
 impl World {
     /// Execute one operation with all transition monitors.
     pub fn apply(&mut self, op: Op) -> VResult {
+        *self.snap_cache.borrow_mut() = None;
         let pre = self.phase();
         let cb = is_callback(op);
         let prot_now = if matches!(pre, P::Marking | P::Marked) && !self.resurrected.is_empty() { self.sh.closure(&self.resurrected) } else { vec![] };
